@@ -303,6 +303,7 @@ class Facts:
         self.aliases = {}
         self.meta = None
         self.stolen = []
+        self.fenums = {}    # foreign enums mentioned in local types: path -> [{name, discr}]
         with open(path) as f:
             for line in f:
                 r = json.loads(line)
@@ -325,6 +326,8 @@ class Facts:
                     self.meta = r
                 elif t == "stolen":
                     self.stolen = r["bodies"]
+                elif t == "fenum":
+                    self.fenums[r["path"]] = r["variants"]
         self._children = None
         self._callers = None
         self._resolve_named_consts()
